@@ -26,6 +26,8 @@ RULE = ('Hypothesis-generated histories over populations of 2-6 recorder handler
         'dead; every dispatch returns normally and reaches exactly the surviving registered listeners once '
         '(a listener killed during that dispatch: 0 or 1). '
         'In ~12% of the cases every direct dispatch is repeated 64-150 times (hot events). '
+        ''
+        'Every third dispatch carries keyword arguments; in a third of the cases every handler gets a weakref.finalize callback (registered after it was added) that dispatches one of its events while the handler dies. '
         'Non-trivial = a handler died during a dispatch while '
         'its callback for that event had not yet run (exact under injected order). Distinct = sha1 of canonical '
         'JSON.')
